@@ -75,6 +75,7 @@ type Exec struct {
 	sentinels []string
 	fnAt     map[string]*FnVal
 	nowrap   bool
+	heapRegs map[string]func(*Ctx)
 }
 
 type view struct {
@@ -127,6 +128,7 @@ type Frame struct {
 	backEdge map[[2]int]bool
 	entrySt  *State
 	params   map[string]SV
+	paramSorts map[string]string
 	nowrap   bool
 	debugAll map[string][]ssa.Value // source name -> values bound to it (from DebugRef), in execution order
 }
@@ -258,6 +260,9 @@ func (x *Exec) frameCheck(st *State, heap, ref, guard, where string) {
 		return
 	}
 	allowed := []string{fmt.Sprintf("(>= %s %s)", ref, x.rootW0)}
+	if strings.HasPrefix(heap, "E:") {
+		allowed = append(allowed, eq(ref, "0")) // a nil slice has no elements to write
+	}
 	var tags []string
 	for _, cl := range x.root.contract.Assigns {
 		tags = append(tags, cl.Tags...)
@@ -732,6 +737,11 @@ func (f *Frame) enterLoop(li *loopInfo, b *ssa.BasicBlock, entry *State, reach s
 		}
 	} else {
 		for k := range x.modsets[key] {
+			if _, ok := c.heapSort[k]; !ok {
+				if reg := x.heapRegs[k]; reg != nil {
+					reg(c) // first use of this heap is inside the loop: register it now so it is havocked
+				}
+			}
 			names = append(names, k)
 		}
 	}
@@ -767,6 +777,10 @@ func (f *Frame) enterLoop(li *loopInfo, b *ssa.BasicBlock, entry *State, reach s
 		hv := f.havocValue(f.prefix+"/"+phi.Name(), phi.Type(), hs, reach)
 		li.havocEnv[phi] = hv
 		f.env[phi] = hv
+		if phi.Comment == "rangeindex" {
+			// counter generated by go/ssa for `range` over a slice/array/string: starts at -1, incremented by 1
+			c.assume(reach, "(>= "+hv.T+" (- 1))")
+		}
 	}
 	li.headSt = hs.clone()
 	li.reach = reach
@@ -834,6 +848,7 @@ func (f *Frame) backEdgeObligations(li *loopInfo, from *ssa.BasicBlock, st *Stat
 	for _, inv := range li.spec.Invariants {
 		env := f.specEnv(st, f.entrySt, backEnv)
 		env.loopHeader = b
+		env.prove = true
 		c.oblige(fmt.Sprintf("loop%d.inv-preserved", li.ordinal), inv.Tags, guard, env.boolClause(inv), inv.Src, inv.Text)
 	}
 	if li.spec.Decreases != nil {
